@@ -81,7 +81,7 @@ def gen_case(rng):
     r2 = random.Random(seed); sp_, head, entries = pair_model(r2, n_species=3)
     ops = []
     keys = [k for k, v in entries]
-    def spaced(k): a, b = k.split('-'); return rng.choice(['%s-%s', '%s - %s', ' %s- %s', '%s -%s']) % (a, b)
+    def spaced(k): a, b = k.split('-'); return rng.choice(['%s-%s', '%s - %s', ' %s- %s', '%s -%s', '%s\t-%s', '%s -\t%s']) % (a, b)
     for _ in range(rng.randint(1, 3)):
         kind = rng.choice(['override', 'override', 'add', 'remove'])
         if kind == 'override':
